@@ -127,6 +127,7 @@ func MaxSat(c Case) (out Case) {
 				go func() {
 					for x := range ch {
 						stream = append(stream, resultRec(x))
+						consumerDelay(cfg)
 					}
 					closed = true
 					close(done)
@@ -134,7 +135,7 @@ func MaxSat(c Case) (out Case) {
 				res = s.Optimal(ch, nil)
 				select {
 				case <-done:
-				case <-time.After(300 * time.Millisecond):
+				case <-time.After(2 * time.Second):
 				}
 			} else {
 				res = s.Optimal(nil, nil)
